@@ -54,6 +54,8 @@ func c18Setup(state string) (*c18World, error) {
 		"CREATE TABLE e (a int)",
 		"CREATE TABLE dd (a int, a varchar(255))",
 		"INSERT INTO dd VALUES (1, 'one')",
+		"CREATE TABLE s8 (a int, c varchar(255))", // one leaf, one row short of its first split
+		"INSERT INTO s8 VALUES (1, 'r1'), (2, 'r2'), (3, 'r3'), (4, 'r4'), (5, 'r5'), (6, 'r6'), (7, 'r7'), (8, 'r8')",
 		"CREATE TABLE z ()", // a table without columns, with two rows (if the engine lets it be)
 		"INSERT INTO z VALUES (), ()",
 	}
@@ -213,6 +215,25 @@ func c18Mutations() []string {
 	return out
 }
 
+// c18Scripts: short statement lists on one database (state built up by earlier statements meets the next one):
+// deletions and updates in every part of a full leaf followed by the insertion that splits it, refused statements
+// followed by accepted ones, a table emptied and filled again.
+func c18Scripts() [][]string {
+	var out [][]string
+	ins9 := "INSERT INTO s8 VALUES (9, 'r9')"
+	for _, first := range []string{
+		"DELETE FROM s8 WHERE a = 1", "DELETE FROM s8 WHERE a = 4", "DELETE FROM s8 WHERE a = 5", "DELETE FROM s8 WHERE a = 6", "DELETE FROM s8 WHERE a = 8",
+		"DELETE FROM s8 WHERE a > 4", "DELETE FROM s8 WHERE a <= 4", "DELETE FROM s8",
+		"UPDATE s8 SET c = 'longer than before, by far' WHERE a > 5", "UPDATE s8 SET c = '' WHERE a < 4",
+		"INSERT INTO s8 VALUES (9, '" + strings.Repeat("w", 500) + "')", "UPDATE s8 SET c = '" + strings.Repeat("w", 500) + "' WHERE a = 6",
+		"INSERT INTO s8 (a) VALUES (9)", "INSERT INTO s8 VALUES (9, 'x', 1)",
+	} {
+		out = append(out, []string{first, ins9, "INSERT INTO s8 VALUES (10, 'r10'), (11, 'r11')", "SELECT * FROM s8 WHERE a > 3 ORDER BY a DESC", "DELETE FROM s8 WHERE a = 9", "UPDATE s8 SET c = 'z'"})
+		out = append(out, []string{first, first, ins9, "SELECT count(*) FROM s8"})
+	}
+	return out
+}
+
 func runC18(env *lib.Env, rep *lib.Report) {
 	lib.SilenceStderr()
 	defer lib.RestoreStderr()
@@ -226,6 +247,7 @@ func runC18(env *lib.Env, rep *lib.Report) {
 	fails := map[string]int{}
 	known := env.OpenKnown()
 	var n int64
+	var scriptSoFar []string // the statements of the list executed before the one being judged (for replay)
 	judge := func(state, q string, err error) {
 		n++
 		outcome := "error"
@@ -254,7 +276,7 @@ func runC18(env *lib.Env, rep *lib.Report) {
 		}
 		key := kind + ":" + msg + "@" + fn
 		fails[key]++
-		f := &lib.Failure{Kind: kind, Detail: fmt.Sprintf("[session state %s] %s\n %s\n%s", state, clip(q, 200), msg, where), Trace: []string{state, q}}
+		f := &lib.Failure{Kind: kind, Detail: fmt.Sprintf("[session state %s] %s\n %s\n%s", state, clip(q, 200), msg, where), Trace: append([]string{state, q}, scriptSoFar...)}
 		if _, open := known["D26-catalog-writable"]; open && c18MutatesCatalog(q) {
 			f.Known = "D26-catalog-writable"
 		}
@@ -273,8 +295,19 @@ func runC18(env *lib.Env, rep *lib.Report) {
 		}
 		defer w.destroy()
 		watch := storage.VerifWatchReadLocks()
+		if len(rf.Trace) > 2 {
+			// a statement list: the earlier statements first
+			for _, q := range rf.Trace[2:] {
+				e := guard(func() error { return w.sess.ExecQuery(q) })
+				lib.Say("replay [%s] %s -> %v", rf.Trace[0], q, e)
+			}
+		}
 		storage.VerifSetFuel(worldFuel)
-		e := guard(func() error { return w.sess.ExecQuery(rf.Trace[1]) })
+		stmtText := rf.Trace[1]
+		if i := strings.Index(stmtText, "   [statement "); i >= 0 {
+			stmtText = stmtText[:i]
+		}
+		e := guard(func() error { return w.sess.ExecQuery(stmtText) })
 		lib.Say("replay [%s] %s -> %v", rf.Trace[0], rf.Trace[1], e)
 		judge(rf.Trace[0], rf.Trace[1], e)
 		if n := watch(); n > 0 {
@@ -358,6 +391,37 @@ func runC18(env *lib.Env, rep *lib.Report) {
 			judge(state, q+" ; SELECT * FROM t", e2)
 			w.destroy()
 		}
+	}
+	// statement lists (each on a fresh database, session state "selected")
+	scripts := c18Scripts()
+	rep.Bounds["statement lists"] = fmt.Sprintf("%d lists of 4-6 statements on a table one row short of its first split", len(scripts))
+	for si, script := range scripts {
+		if si%env.NShards != env.Shard {
+			continue
+		}
+		w, err := c18Setup("selected")
+		if err != nil {
+			panic(lib.HarnessError{Msg: "C18 setup: " + err.Error()})
+		}
+		recursiveReadLocks = storage.VerifWatchReadLocks()
+		for qi, q := range script {
+			label := fmt.Sprintf("%s   [statement %d of the list %q]", q, qi+1, script[:qi])
+			scriptSoFar = script[:qi]
+			prog.Set("statement list", label)
+			storage.VerifSetFuel(worldFuel)
+			e := guard(func() error { return w.sess.ExecQuery(q) })
+			storage.VerifSetFuel(-1)
+			judge("selected", label, e)
+			if _, isPanic := e.(*panicErr); isPanic {
+				break
+			}
+			if n := recursiveReadLocks(); n > 0 || !storage.VerifLockFree(w.sess.RelationService) {
+				rep.AddFailure(&lib.Failure{Kind: "hang", Detail: fmt.Sprintf("%s: the store lock is requested while held (%d) or left held", clip(label, 300), n), Trace: []string{"selected", label}})
+				break
+			}
+		}
+		scriptSoFar = nil
+		w.destroy()
 	}
 	for k, v := range fails {
 		lib.Say("C18 failure class %d x %s", v, strings.ReplaceAll(k, "\n", " "))
